@@ -19,6 +19,8 @@ package main
 //	sigs/<k>.pre   k lines by k distinct witnesses, then the honest signature lines
 //	sigs/<k>.dup   the honest signature lines, then ONE witness line repeated k times (repeated unverified lines are
 //	               dropped from the result but are still signature lines of the note)
+//	sigs/<k>.u<hh>[p]  the honest signature lines, then (p: preceded by) k lines by witnesses whose key NAMES are legal
+//	               non-ASCII names containing a character with the UTF-8 continuation byte 0x<hh> (util_c01names.go)
 //
 // The witness signatures are real Ed25519 signatures of the note text under real (deterministically generated) note keys.
 
@@ -80,6 +82,15 @@ func clMutateSigs(param string, data []byte) ([]byte, bool) {
 	if err != nil || k < 0 || k > 1000 {
 		return nil, false
 	}
+	ub := -1 // continuation byte of the non-ASCII witness names (variant u<hh>[p])
+	if len(variant) >= 3 && variant[0] == 'u' && (len(variant) == 3 || variant[3:] == "p") {
+		b, err := strconv.ParseUint(variant[1:3], 16, 8)
+		if err != nil || b < 0x80 || b > 0xBF {
+			return nil, false
+		}
+		ub = int(b)
+		variant = map[bool]string{false: "", true: "pre"}[len(variant) == 4]
+	}
 	switch variant {
 	case "", "pre", "dup":
 	default:
@@ -105,6 +116,12 @@ func clMutateSigs(param string, data []byte) ([]byte, bool) {
 				wit = clWitnessLine(0, text)
 			} else {
 				wit = append(wit, wit[:bytes.IndexByte(wit, '\n')+1]...)
+			}
+			continue
+		}
+		if ub >= 0 {
+			if name := c01NameWitnessName(byte(ub), i); name != "" {
+				wit = append(wit, c01NameWitnessLine(name, text)...)
 			}
 			continue
 		}
